@@ -245,10 +245,13 @@ Theorem chained_key_needs_its_first_segment : forall kc env key k0 ks o,
 Proof. exact getv_first_segment_absent. Qed.
 Print Assumptions chained_key_needs_its_first_segment.
 
-(* on keys that are their own single segment (and not "-") this is the unmarshaller of Model.v,
-   about which the theorems of the first part (and C17) speak *)
+(* on keys that are their own single segment (and not "-"), without defaults on slice fields, and on
+   documents none of whose strings spells a JSON array or null (KModel.v reads such a string given
+   to a slice field, Model.v refuses it) this is the unmarshaller of Model.v, about which the theorems
+   of the first part (and C17) speak *)
 Theorem keyed_model_extends_plain_model : forall kc fs d,
-  plain_fields kc fs = true -> unmarshalK kc fs d = unmarshal fixed (k_cfg kc) fs d.
+  plain_fields kc fs = true -> match d with Some v => doc_inert v | None => true end = true ->
+  unmarshalK kc fs d = unmarshal fixed (k_cfg kc) fs d.
 Proof. exact unmarshalK_plain. Qed.
 Print Assumptions keyed_model_extends_plain_model.
 
